@@ -327,8 +327,11 @@ func canonSet(m map[string]string) []string {
 
 var reUserCall = regexp.MustCompile(`\bderive[A-Z]\w*T\d+\b`)
 
-var customPool = []string{"gen", "my", "d", "Derive", "mk", "auto_", "x"}
-var overridePool = []string{"same", "ord", "eq", "cmp", "h", "cp", "srt", "ks", "has", "uniq", "gs", "clone", "Min", "keysOf"}
+var customPool = []string{"gen", "my", "d", "Derive", "mk", "auto_", "x", "go", "map"}
+// overrides: ordinary identifiers, and Go keywords (a prefix is only the beginning of a function name: mapLen, goAll
+// and rangeOf are legal identifiers although map, go and range are not)
+var overridePool = []string{"same", "ord", "eq", "cmp", "h", "cp", "srt", "ks", "has", "uniq", "gs", "clone", "Min", "keysOf",
+	"map", "go", "range", "select", "type", "func", "var", "if", "for", "chan"}
 
 func pick[T any](t *rapid.T, label string, xs []T) T {
 	return xs[rapid.IntRange(0, len(xs)-1).Draw(t, label)]
